@@ -138,7 +138,29 @@ fn traffic_app(r: &mut Rng, targets: &[u8]) -> AppCfg {
     }
     let mut kinds = Vec::new();
     for _ in 0..r.range(1, 3) {
-        kinds.push(r.pick(&[ReqKind::SdnLow, ReqKind::SdnHigh, ReqKind::SrdLow, ReqKind::SrdHigh, ReqKind::FdlStatus]).clone());
+        kinds.push(
+            r.pick(&[
+                ReqKind::SdnLow,
+                ReqKind::SdnHigh,
+                ReqKind::SrdLow,
+                ReqKind::SrdHigh,
+                ReqKind::FdlStatus,
+                ReqKind::SdnLow,
+                ReqKind::SdnHigh,
+                ReqKind::SrdLow,
+                ReqKind::SrdHigh,
+                ReqKind::FdlStatus,
+                ReqKind::SdaLow,
+                ReqKind::SdaHigh,
+                ReqKind::SdaLow,
+                ReqKind::Ident,
+                ReqKind::LsapStatus,
+                ReqKind::MulticastSrd,
+                ReqKind::TimeEvent,
+                ReqKind::ClockValue,
+            ])
+            .clone(),
+        );
     }
     AppCfg::Traffic(TrafficCfg {
         appetite,
